@@ -1,16 +1,18 @@
 """C01 Relaxation generators preserve trace and Hermiticity."""
 import numpy
 from vf.framework import harness
+from harness.common import (build_sbi, set_symmetric_hamiltonian, set_symmetric_K,
+                            trace_and_herm, secular_shape, tensor_with_identities)
 
-F_RED = "quantarhei/qm/liouvillespace/redfieldtensor.py"
-
-
-def trace_and_herm(cx, label, RR):
-    """sum_a R[a,a,c,d] = 0 ; conj R[a,b,c,d] = R[b,a,d,c]"""
-    N = RR.shape[0]
-    tr = numpy.einsum("aacd->cd", RR)
-    cx.prove_eq(label + "/trace", tr, numpy.zeros((N, N), dtype=int))
-    cx.prove_eq(label + "/herm", numpy.conj(RR), numpy.transpose(RR, (1, 0, 3, 2)))
+D = "quantarhei/qm/liouvillespace/"
+F_RED = D + "redfieldtensor.py"
+F_TDR = D + "tdredfieldtensor.py"
+F_REL = D + "relaxationtensor.py"
+F_SEC = D + "secular.py"
+F_LIN = D + "lindbladform.py"
+F_FOE = D + "foerstertensor.py"
+F_TDF = D + "tdfoerstertensor.py"
+F_RF = D + "redfieldfoerster.py"
 
 
 @harness("C01", "redfield_loopit",
@@ -29,3 +31,297 @@ def redfield_loopit(cx, N, nb):
         Kd = numpy.transpose(Km[m, :, :])
         _loopit(Km, Kd, Lm, Ld, N, RR, m)
     trace_and_herm(cx, "R", RR)
+
+
+def _redfield(cx, N, nb, td, secular):
+    import quantarhei as qr
+    from quantarhei.qm import RedfieldRelaxationTensor, TDRedfieldRelaxationTensor
+    ham, sbi, time = build_sbi(cx, N, nb, Nt=4)
+    set_symmetric_hamiltonian(cx, ham)
+    set_symmetric_K(cx, sbi, N)
+    if cx.sym:
+        from symnum import linalg
+        linalg.use_eigh(eigen_equation=False)
+        cx.note("eigh stub without the eigen-equation: S is ANY orthogonal matrix, w any ascending reals "
+                "(over-approximation: the identities are shown for every basis rotation)")
+    cls = TDRedfieldRelaxationTensor if td else RedfieldRelaxationTensor
+    RT = cls(ham, sbi)
+    data = RT._data
+    trace_and_herm(cx, "R", data)
+    if td:
+        cx.prove_eq("R.t0/zero", data[0], numpy.zeros(data[0].shape, dtype=int))
+    if secular:
+        orig = data.copy()
+        if secular == "legacy" or td:
+            RT.secularize()
+        else:
+            RT.secularize(legacy=False)
+        trace_and_herm(cx, "Rsec", RT._data)
+        secular_shape(cx, "Rsec", RT._data, orig)
+
+
+@harness("C01", "redfield_tensor",
+         quick=[dict(N=2, nb=1, secular=None), dict(N=2, nb=2, secular="legacy"),
+                dict(N=3, nb=2, secular="data")],
+         thorough=[dict(N=n, nb=b, secular=s) for n in (2, 3) for b in (1, 2) for s in (None, "legacy", "data")]
+                  + [dict(N=4, nb=2, secular="data")],
+         functions=[F_RED + ":RedfieldRelaxationTensor._implementation",
+                    F_RED + ":RedfieldRelaxationTensor._guts_Cmplx_Splines",
+                    F_RED + ":RedfieldRelaxationTensor._convert_operators_2_tensor", F_RED + ":_loopit",
+                    F_REL + ":RelaxationTensor.secularize", F_SEC + ":Secular._secularize_data"],
+         bound="N<=3 levels, <=2 baths, 3 time points (thorough N<=4); H and K_m arbitrary real symmetric; "
+               "correlation integrals arbitrary complex (spline stub); eigenbasis any orthogonal matrix",
+         out="multi-exciton (mult>1) branch; cut-off time")
+def redfield_tensor(cx, N, nb, secular):
+    _redfield(cx, N, nb, False, secular)
+
+
+@harness("C01", "tdredfield_tensor",
+         quick=[dict(N=2, nb=1, secular=None), dict(N=2, nb=2, secular="td")],
+         thorough=[dict(N=n, nb=b, secular=s) for n in (2, 3) for b in (1, 2) for s in (None, "td")],
+         functions=[F_TDR + ":TDRedfieldRelaxationTensor._implementation",
+                    F_TDR + ":TDRedfieldRelaxationTensor._convert_operators_2_tensor",
+                    F_TDR + ":TDRedfieldRelaxationTensor.secularize"],
+         bound="N<=2 levels (thorough 3), <=2 baths, 3 time indices; H, K_m arbitrary real symmetric",
+         out="multi-exciton branch; cut-off time")
+def tdredfield_tensor(cx, N, nb, secular):
+    _redfield(cx, N, nb, True, secular)
+
+
+@harness("C01", "lindblad_form",
+         quick=[dict(N=2, nb=1), dict(N=3, nb=2)],
+         thorough=[dict(N=2, nb=1), dict(N=3, nb=2), dict(N=3, nb=3), dict(N=4, nb=2)],
+         functions=[F_LIN + ":LindbladForm._implementation",
+                    F_RED + ":RedfieldRelaxationTensor._post_implementation",
+                    F_RED + ":RedfieldRelaxationTensor._convert_operators_2_tensor",
+                    F_RED + ":RedfieldRelaxationTensor.convert_2_tensor"],
+         bound="N<=3 levels, <=2 Lindblad operators (thorough N<=4, 3 operators); operators arbitrary real "
+               "matrices, rates arbitrary real",
+         out="vibrational / electronic Lindblad wrappers (they only build projectors and call this form)")
+def lindblad_form(cx, N, nb):
+    from quantarhei.qm import LindbladForm
+    ham, sbi, time = build_sbi(cx, N, nb)
+    sbi.KK = cx.real_array("K", (nb, N, N))
+    sbi.rates = [cx.real("g%d" % i) for i in range(nb)]
+    LF = LindbladForm(ham, sbi, as_operators=False)
+    trace_and_herm(cx, "R", LF._data)
+    LF2 = LindbladForm(ham, sbi, as_operators=True)
+    LF2.convert_2_tensor()
+    trace_and_herm(cx, "Rconv", LF2._data)
+    orig = LF2._data.copy()
+    LF2.secularize()
+    trace_and_herm(cx, "Rsec", LF2._data)
+    secular_shape(cx, "Rsec", LF2._data, orig)
+
+
+@harness("C01", "update_structure",
+         quick=[dict(N=2, Nt=0), dict(N=3, Nt=0), dict(N=2, Nt=2)],
+         thorough=[dict(N=n, Nt=t) for n in (2, 3, 4) for t in (0, 2)],
+         functions=[F_REL + ":RelaxationTensor.updateStructure"],
+         bound="N<=3 (thorough 4); arbitrary real transfer rates R[a,a,b,b]; time-dependent form with 2 time indices",
+         out="")
+def update_structure(cx, N, Nt):
+    from quantarhei.qm.liouvillespace.relaxationtensor import RelaxationTensor
+    ham, sbi, time = build_sbi(cx, N, 1)
+    RT = RelaxationTensor()
+    RT.dim = N
+    shape = (N, N, N, N) if Nt == 0 else (Nt, N, N, N, N)
+    data = numpy.zeros(shape, dtype=complex)
+    rates = cx.real_array("k", (max(Nt, 1), N, N))
+    for a in range(N):
+        for b in range(N):
+            if a != b:
+                if Nt == 0:
+                    data[a, a, b, b] = rates[0, a, b]
+                else:
+                    data[:, a, a, b, b] = rates[:, a, b]
+    RT._data = data
+    RT.updateStructure()
+    trace_and_herm(cx, "R", RT._data)
+    # depopulation = minus the sum of outgoing rates; dephasing = mean of the two depopulation rates
+    for t in range(max(Nt, 1)):
+        R = RT._data if Nt == 0 else RT._data[t]
+        for b in range(N):
+            out = 0
+            for a in range(N):
+                if a != b:
+                    out = out + rates[t, a, b]
+            cx.prove_eq("depop.t%d[%d]" % (t, b), R[b, b, b, b], -out)
+        for a in range(N):
+            for b in range(N):
+                if a != b:
+                    cx.prove_eq("deph.t%d[%d,%d]" % (t, a, b), R[a, b, a, b],
+                                (R[a, a, a, a] + R[b, b, b, b]) / 2)
+
+
+@harness("C01", "secularize_generic",
+         quick=[dict(N=2, how="legacy"), dict(N=3, how="data")],
+         thorough=[dict(N=n, how=h) for n in (2, 3, 4) for h in ("legacy", "data")],
+         functions=[F_REL + ":RelaxationTensor.secularize", F_SEC + ":Secular.secularize",
+                    F_SEC + ":Secular._secularize_data"],
+         bound="N<=3 (thorough 4); arbitrary tensor satisfying the two identities",
+         out="")
+def secularize_generic(cx, N, how):
+    from quantarhei.qm.liouvillespace.relaxationtensor import RelaxationTensor
+    RT = RelaxationTensor()
+    RT.dim = N
+    R = tensor_with_identities(cx, N)
+    RT._data = R.copy()
+    trace_and_herm(cx, "pre", RT._data)
+    if how == "legacy":
+        RT.secularize()
+    else:
+        RT.secularize(legacy=False)
+    trace_and_herm(cx, "Rsec", RT._data)
+    secular_shape(cx, "Rsec", RT._data, R)
+
+
+@harness("C01", "transform_generic",
+         quick=[dict(N=2, td=False), dict(N=2, td=True), dict(N=3, td=False, plane=[0, 1]),
+                dict(N=3, td=False, plane=[1, 2])],
+         thorough=[dict(N=2, td=False), dict(N=2, td=True)] +
+                  [dict(N=3, td=t, plane=p) for t in (False, True) for p in ([0, 1], [0, 2], [1, 2])] +
+                  [dict(N=4, td=False, plane=p) for p in ([0, 1], [1, 3], [2, 3])],
+         functions=[F_REL + ":RelaxationTensor.transform", F_TDR + ":TDRedfieldRelaxationTensor.transform"],
+         bound="arbitrary tensor with the identities; N=2: S any element of O(2); N=3 (thorough 4): S a plane "
+               "rotation in each index plane times arbitrary column signs (generators of O(N)); "
+               "inverse obtained through numpy.linalg.inv (stub: transpose of the tagged orthogonal matrix)",
+         out="non-orthogonal transformation matrices; composite rotations for N>=3 (they are successive "
+             "applications of the generators)")
+def transform_generic(cx, N, td, plane=None):
+    from quantarhei.qm.liouvillespace.relaxationtensor import RelaxationTensor
+    from quantarhei.qm import TDRedfieldRelaxationTensor
+    R = tensor_with_identities(cx, N)
+    if cx.sym:
+        from symnum import linalg, npatch
+        S = linalg.givens_orthogonal(N, "S", planes=[tuple(plane)] if plane else None)
+        npatch.tag_inverse(S, S.T.copy())
+    else:
+        # rebuild S from the model's rotation parameters (same construction, floats)
+        S = numpy.eye(N)
+        k = 0
+        for i in range(N):
+            for j in range(i + 1, N):
+                if plane and (i, j) != tuple(plane):
+                    continue
+                c, s_ = cx.real("S.c%d" % k), cx.real("S.s%d" % k)
+                nrm = (c * c + s_ * s_) ** 0.5
+                c, s_ = c / nrm, s_ / nrm
+                G = numpy.eye(N)
+                G[i, i] = G[j, j] = c
+                G[i, j], G[j, i] = -s_, s_
+                S = S @ G
+                k += 1
+        for i in range(N):
+            S[:, i] *= (1.0 if cx.real("S.sg%d" % i) >= 0 else -1.0)
+    if td:
+        ham, sbi, time = build_sbi(cx, N, 1)
+        RT = TDRedfieldRelaxationTensor(ham, sbi, initialize=False)
+        RT.Nt = 2
+        R2 = tensor_with_identities(cx, N, "Q")
+        RT._data = numpy.array([R, R2])
+        RT._data_initialized = True
+    else:
+        RT = RelaxationTensor()
+        RT.dim = N
+        RT._data = R.copy()
+    RT.transform(S)
+    trace_and_herm(cx, "Rtr", RT._data)
+
+
+def _patch_foerster_inputs(cx, sbi, N, Nt):
+    """symbolic mode: Foerster rates and the bath integrals h_n(t) become arbitrary
+    real / complex numbers (they come out of numerical quadrature of arbitrary bath
+    functions).  Replay mode: the real objects are used unchanged."""
+    if not cx.sym:
+        return None
+    import quantarhei.qm.liouvillespace.foerstertensor as ft
+    rates = cx.real_array("kF", (N, N))
+
+    class FRM:
+        def __init__(self, *a, **kw):
+            self.data = rates
+    old = ft.FoersterRateMatrix
+    ft.FoersterRateMatrix = FRM
+    hs = cx.cplx_array("h", (N, Nt))
+    sbi.CC.create_one_integral = lambda: None
+    sbi.CC.get_hoft = lambda i, j: hs[i + 1]
+    return (ft, old)
+
+
+def _unpatch(p):
+    if p:
+        p[0].FoersterRateMatrix = p[1]
+
+
+@harness("C01", "foerster_tensor",
+         quick=[dict(N=2, deph=False), dict(N=3, deph=True)],
+         thorough=[dict(N=n, deph=d) for n in (2, 3, 4) for d in (False, True)],
+         functions=[F_FOE + ":FoersterRelaxationTensor.initialize",
+                    F_FOE + ":FoersterRelaxationTensor.add_dephasing",
+                    F_REL + ":RelaxationTensor.updateStructure"],
+         bound="N<=3 levels (thorough 4); Foerster rates arbitrary reals, bath integrals h_n(t) arbitrary complex",
+         out="values of the Foerster overlap integrals")
+def foerster_tensor(cx, N, deph):
+    from quantarhei.qm import FoersterRelaxationTensor
+    ham, sbi, time = build_sbi(cx, N, N - 1, Nt=4)
+    set_symmetric_hamiltonian(cx, ham)
+    p = _patch_foerster_inputs(cx, sbi, N, 4)
+    try:
+        FT = FoersterRelaxationTensor(ham, sbi, initialize=False, pure_dephasing=deph)
+        FT.initialize()
+    finally:
+        _unpatch(p)
+    trace_and_herm(cx, "R", FT._data)
+    orig = FT._data.copy()
+    FT.secularize()
+    trace_and_herm(cx, "Rsec", FT._data)
+    secular_shape(cx, "Rsec", FT._data, orig)
+
+
+@harness("C01", "tdfoerster_tensor",
+         quick=[dict(N=2), dict(N=3)],
+         thorough=[dict(N=2), dict(N=3)],
+         functions=[F_TDF + ":TDFoersterRelaxationTensor.initialize",
+                    F_TDF + ":TDFoersterRelaxationTensor.add_dephasing",
+                    F_TDF + ":_td_reference_implementation", F_TDF + ":_td_fintegral",
+                    F_REL + ":RelaxationTensor.updateStructure"],
+         bound="N<=3 levels, 3 time indices; site energies/couplings arbitrary reals, running Foerster "
+               "integrals arbitrary (spline stub), bath integrals h_n(t) arbitrary complex",
+         out="values of the integrals")
+def tdfoerster_tensor(cx, N):
+    from quantarhei.qm.liouvillespace.tdfoerstertensor import TDFoersterRelaxationTensor
+    ham, sbi, time = build_sbi(cx, N, N - 1, Nt=4)
+    set_symmetric_hamiltonian(cx, ham)
+    p = _patch_foerster_inputs(cx, sbi, N, 4)
+    try:
+        FT = TDFoersterRelaxationTensor(ham, sbi, initialize=False)
+        FT.initialize()
+    finally:
+        _unpatch(p)
+    trace_and_herm(cx, "R", FT._data)
+
+
+@harness("C01", "redfield_foerster",
+         quick=[dict(N=2, remainder=True), dict(N=2, remainder=False)],
+         thorough=[dict(N=2, remainder=True), dict(N=2, remainder=False), dict(N=3, remainder=True)],
+         functions=[F_RF + ":RedfieldFoersterRelaxationTensor._reference_implementation",
+                    D + "rates/foersterrates.py:_reference_implementation",
+                    D + "rates/foersterrates.py:_fintegral",
+                    F_RED + ":RedfieldRelaxationTensor._implementation"],
+         bound="N=2 levels (thorough 3), N-1 baths, 4 time points; H and the remainder coupling JR arbitrary real "
+               "symmetric, quadrature results arbitrary (spline stub); eigenbasis any orthogonal matrix",
+         out="the coupling cut-off value itself (JR is arbitrary, including zero)")
+def redfield_foerster(cx, N, remainder):
+    from quantarhei.qm.liouvillespace.redfieldfoerster import RedfieldFoersterRelaxationTensor
+    ham, sbi, time = build_sbi(cx, N, N - 1, Nt=4)
+    set_symmetric_hamiltonian(cx, ham)
+    set_symmetric_K(cx, sbi, N)
+    if remainder:
+        ham.JR = cx.real_symmetric("JR", N, zero_diag=True)
+        ham._has_remainder_coupling = True
+    if cx.sym:
+        from symnum import linalg
+        linalg.use_eigh(eigen_equation=False)
+    RT = RedfieldFoersterRelaxationTensor(ham, sbi)
+    trace_and_herm(cx, "R", RT._data)
